@@ -23,8 +23,8 @@ impl Prop for C11 {
 
     fn budget(tier: Tier) -> Budget {
         match tier {
-            Tier::Quick => Budget { cases: 10_000, shards: 16 },
-            Tier::Thorough => Budget { cases: 500_000, shards: 16 },
+            Tier::Quick => Budget { cases: 100000, shards: 16 },
+            Tier::Thorough => Budget { cases: 800000, shards: 16 },
         }
     }
 
